@@ -147,6 +147,9 @@ class EdgeLandmark(BaseEdge):
         # https://docs.ros.org/en/kinetic/api/rtabmap/html/OptimizerG2O_8cpp_source.html
         # fmt: off
         if isinstance(self.vertices[0].pose, PoseSE2):
+            # The `EDGE_SE2_XY` format has no field for the offset, so only the identity offset can be written
+            if not np.array_equal(self.offset.to_array(), PoseSE2.identity().to_array()):
+                raise NotImplementedError("EDGE_SE2_XY cannot represent a non-identity offset")
             return "EDGE_SE2_XY {} {} {} {} ".format(self.vertex_ids[0], self.vertex_ids[1], self.estimate[0], self.estimate[1]) + " ".join([str(x) for x in self.information[np.triu_indices(2, 0)]]) + "\n"
 
         if isinstance(self.vertices[0].pose, PoseSE3):
